@@ -286,3 +286,14 @@ Proof.
   intros L Hr E. rewrite vmul_vscale_both, simpson_vscale by (rewrite vmul_length; auto).
   rewrite <- E. field. exact Hr.
 Qed.
+
+(* ---------- on two EQUAL adjacent intervals the three-point rule is also exact for cubics (classical Simpson) ---------- *)
+Definition P3 (a b c d x : R) : R := a + b * x + c * (x * x) + d * (x * (x * x)).
+Definition F3 (a b c d x : R) : R := a * x + b * (x * x) / 2 + c * (x * (x * x)) / 3 + d * (x * x * (x * x)) / 4.
+Theorem simp3_exact_cubic_equal_spacing a b c d x0 h : h <> 0 ->
+  simp3R x0 (x0 + h) (x0 + 2 * h) (P3 a b c d x0) (P3 a b c d (x0 + h)) (P3 a b c d (x0 + 2 * h))
+  = F3 a b c d (x0 + 2 * h) - F3 a b c d x0.
+Proof.
+  intros Hh. rewrite simp3_val by (intro E; apply Hh; lra).
+  unfold P3, F3. field. repeat split; try assumption; intro E; apply Hh; lra.
+Qed.
